@@ -10,13 +10,18 @@
 //      in float64 from the dense G with a computed float32 band;  D = max(D_pre + 2*surrogate curvature, 1e-5*min positive),
 //      D_pre = sum_b G_bv (G 1)_b / (y_b n_b^2) with divide_and_truncate's documented rules (quotient 1e4 where y_b = 0);
 //      zeta_n = alpha/(1+gamma n), n "the (full) iteration number" (class documentation).  Both the 0-based and the 1-based
-//      numbering of full iterations are accepted, but one of them has to fit ALL sub-iterations of a run: a relaxation
-//      that changes inside a full iteration is reported under its own key (see final report / known findings);
+//      numbering of full iterations are accepted (the statement does not fix it), but one of them has to fit ALL
+//      sub-iterations of a run: a relaxation that changes inside a full iteration is reported under its own key
+//      "ossps:relaxation-changes-within-a-full-iteration" (genuine on the tree before the fix: n was computed as
+//      subiteration_num/num_subsets with the 1-based counter, so the last sub-iteration of every full iteration already
+//      used the next iteration's relaxation);
 //  (2) the precomputed denominator file written at set_up equals D_pre (band) and is non-negative;
 //  (3) every iterate is finite and within [0, upper bound];
 //  (4) restart (no prior / quadratic prior): a FRESH reconstruction + objective function started at k+1 from the iterate
 //      after k (memory copy, or the Interfile file the uninterrupted run saved; denominator recomputed or read from the
-//      file the first run wrote) reproduces all later iterates bit-for-bit.
+//      file the first run wrote) reproduces all later iterates bit-for-bit.  Key
+//      "ossps:restart:voxels-without-sensitivity-reset-to-zero-at-restart-only": the restarted run zeroed the voxels no bin
+//      sees once more although the prior had moved them in the uninterrupted run (genuine on the tree before the fix).
 // relaxation parameter / gamma / upper bound have no set_ functions: they are set through the documented parsing keys.
 #include "common/verif.h"
 #include "common/gen.h"
@@ -345,14 +350,16 @@ run_case(Ctx& ctx)
       ctx.count("voxels_with_thresholded_denominator", S0.thresholded_den);
       bool fit0 = true, fit1 = true;
       int bad0 = -1, bad1 = -1;
-      long compared = 0, clamped = 0;
+      long compared = 0, clamped_low = 0, clamped_up = 0;
       for (int v = 0; v < w.nvox; ++v)
         {
           if (S0.skip[v])
             continue;
           ++compared;
-          if (S0.unclamped[v] < 0 || S0.unclamped[v] > U)
-            ++clamped;
+          if (S0.unclamped[v] < 0)
+            ++clamped_low;
+          else if (S0.unclamped[v] > U)
+            ++clamped_up;
           if (!vf::close_enough(static_cast<double>(got[v]), S0.ref[v], S0.band[v]))
             {
               fit0 = false;
@@ -385,11 +392,13 @@ run_case(Ctx& ctx)
         {
           fit_log += vf::fmt("sub-iteration %d (full iteration %d): relaxation fits n=%d only; ", j, n0 + 1, fit0 ? n0 : n1);
           ctx.count(fit0 ? "updates_fitting_zero_based_iteration_number_only" : "updates_fitting_one_based_iteration_number_only");
+          ctx.count("updates_discriminating_iteration_numbering");
         }
       else
         ctx.count("updates_not_discriminating_iteration_numbering");
       ctx.count("voxels_compared", compared);
-      ctx.count("voxels_clamped_by_bounds", clamped);
+      ctx.count("voxels_clamped_at_zero", clamped_low);
+      ctx.count("voxels_clamped_at_upper_bound", clamped_up);
       ++updates_checked;
       ctx.count("updates_checked");
     }
